@@ -1524,3 +1524,12 @@ mutant("c01-z-insert-at-front", "C01", "R01.a", SCH,
        "        self.schedule[scheduled_operation.machine_id].append(\n            scheduled_operation\n        )\n",
        "        self.schedule[scheduled_operation.machine_id].insert(\n            0, scheduled_operation\n        )\n",
        "a constant position is not an argument about order")
+_v("c18-z-edge-space-by-helper", "C18", "refactor", None, [
+    (SENV, "        num_edges = self.job_shop_graph.num_edges\n        dict_space: dict[str, gym.Space] = {\n            ObservationSpaceKey.REMOVED_NODES.value: gym.spaces.MultiBinary(\n                len(self.job_shop_graph.nodes)\n            ),\n            ObservationSpaceKey.EDGE_INDEX.value: gym.spaces.MultiDiscrete(\n                np.full(\n                    (2, num_edges),\n                    fill_value=len(self.job_shop_graph.nodes) + 1,\n                    dtype=np.int32,\n                ),\n                start=np.full(\n                    (2, num_edges),\n                    fill_value=-1,  # -1 is used for padding\n                    dtype=np.int32,\n                ),\n            ),\n        }\n",
+     "        num_edges = self.job_shop_graph.num_edges\n        num_nodes = len(self.job_shop_graph.nodes)\n        dict_space: dict[str, gym.Space] = {\n            ObservationSpaceKey.REMOVED_NODES.value: gym.spaces.MultiBinary(\n                num_nodes\n            ),\n            ObservationSpaceKey.EDGE_INDEX.value: self._edge_index_space(\n                num_nodes, num_edges\n            ),\n        }\n"),
+    (SENV, "    def _get_observation_space(self) -> gym.spaces.Dict:\n",
+     "    @staticmethod\n    def _edge_index_space(num_nodes: int, num_edges: int) -> gym.spaces.MultiDiscrete:\n        return gym.spaces.MultiDiscrete(\n            np.full((2, num_edges), fill_value=num_nodes + 1, dtype=np.int32),\n            start=np.full((2, num_edges), fill_value=-1, dtype=np.int32),\n        )\n\n    def _get_observation_space(self) -> gym.spaces.Dict:\n"),
+], "the edge-index declaration made by a helper that follows another declaration in the dict display")
+_v("c18-z-edge-space-by-helper-short", "C18", "mutant", "R18.b",
+   [VARIANTS[-1]["edits"][0], (VARIANTS[-1]["edits"][1][0], VARIANTS[-1]["edits"][1][1], VARIANTS[-1]["edits"][1][2].replace("fill_value=num_nodes + 1", "fill_value=num_nodes - 1"))],
+   "the helper's upper bound excludes the last node ids")
